@@ -7,10 +7,25 @@
 #include "aes_hash.hpp"
 #include "soft_aes.h"
 #include <cstdlib>
+#include <sys/mman.h>
 
 using namespace rxv;
 
 namespace {
+// buffer whose last byte lies directly before a PROT_NONE page (an overrun faults inside the library call and is attributed
+// to the case) with a canary page in front; 64-byte aligned because sizes are multiples of 64
+struct GuardedBuf {
+	uint8_t* map = nullptr; size_t total = 0; uint8_t* p = nullptr; size_t n;
+	explicit GuardedBuf(size_t n_) : n(n_) {
+		const size_t page = 4096; const size_t body = ((n + page - 1) / page + 1) * page; total = body + page;
+		map = (uint8_t*)mmap(nullptr, total, PROT_READ | PROT_WRITE, MAP_PRIVATE | MAP_ANONYMOUS, -1, 0);
+		if (map == MAP_FAILED) { map = nullptr; return; }
+		memset(map, 0xC7, body); mprotect(map + body, page, PROT_NONE); p = map + body - n;
+	}
+	~GuardedBuf() { if (map) munmap(map, total); }
+	bool canaryIntact() const { for (const uint8_t* q = map; q < p; ++q) if (*q != 0xC7) return false; return true; }
+	GuardedBuf(const GuardedBuf&) = delete;
+};
 struct Aligned {
 	uint8_t* p; size_t n;
 	explicit Aligned(size_t n_) : n(n_) { void* q = nullptr; if (posix_memalign(&q, 64, n ? n : 64) != 0) q = nullptr; p = (uint8_t*)q; }
@@ -56,7 +71,7 @@ RXV_SUBCOMMAND(c12) {
 			if (v == 0x53 && pos < 2) { R.sample("{\"state\":\"" + hex(st, 16) + "\",\"key\":\"" + hex(key, 16) + "\"}"); R.nontrivial(fnv1a(st, 16) ^ pos); }
 		}
 	}
-	const uint64_t nRounds = args.num("rounds", thorough ? 100000000 : 4000000) / args.nshards;
+	const uint64_t nRounds = args.num("rounds", thorough ? 1000000000ULL : 4000000) / args.nshards;
 	for (uint64_t i = 0; i < nRounds; ++i) { alignas(16) uint8_t st[16], key[16]; rng.fill(st, 16); rng.fill(key, 16); roundCase(st, key); }
 
 	// ---- generator / fingerprint functions
@@ -91,7 +106,7 @@ RXV_SUBCOMMAND(c12) {
 			}
 			// hash1R and the combined step
 			{
-				Aligned in(size), work(size); fillPattern(rng, in.p, size, kind);
+				Aligned in(size); fillPattern(rng, in.p, size, kind);
 				alignas(16) uint8_t hs[64], hh[64], hm[64];
 				{ ip::Api scope("hashAes1Rx4"); hashAes1Rx4<true>(in.p, size, hs); hashAes1Rx4<false>(in.p, size, hh); }
 				mdl::aesHash1R(in.p, size, hm);
@@ -101,11 +116,13 @@ RXV_SUBCOMMAND(c12) {
 				std::vector<uint8_t> fillRef(size); alignas(16) uint8_t stRef[64]; memcpy(stRef, seed, 64);
 				mdl::aesGenerator1R(stRef, fillRef.data(), size);
 				for (int soft = 0; soft < 2; ++soft) {
+					GuardedBuf work(size); if (!work.p) R.harnessFail("mmap");
 					memcpy(work.p, in.p, size);
 					alignas(16) uint8_t h2[64], st2[64]; memcpy(st2, seed, 64);
 					{ ip::Api scope("hashAndFillAes1Rx4"); if (soft) hashAndFillAes1Rx4<true>(work.p, size, h2, st2); else hashAndFillAes1Rx4<false>(work.p, size, h2, st2); }
 					if (memcmp(h2, hm, 64)) R.violation(soft ? "C12:model:hashAndFill-hash-soft" : "C12:model:hashAndFill-hash-hard", cj);
 					if (memcmp(work.p, fillRef.data(), size) || memcmp(st2, stRef, 64)) R.violation(soft ? "C12:model:hashAndFill-fill-soft" : "C12:model:hashAndFill-fill-hard", cj);
+					if (!work.canaryIntact()) R.violation(soft ? "C12:canary:hashAndFill-wrote-before-buffer-soft" : "C12:canary:hashAndFill-wrote-before-buffer-hard", cj);
 					R.count("hashandfill_compared");
 				}
 			}
